@@ -506,6 +506,15 @@ func (p *progGen) node(b *strings.Builder, depth int) {
 		b.WriteString(" </p> <b> x </b>{% endspaceless %}")
 	case "autoescape":
 		p.use("autoescape")
+		if p.g.Draw(4) == 0 && !p.inMacro && depth == 0 {
+			// one macro, called where escaping is off - in a branch that depends on the context -
+			// and where it is on: which call comes first differs from execution to execution
+			p.use("macro")
+			p.use("if")
+			m := p.id("em")
+			fmt.Fprintf(b, "{%% macro %s(v) %%}<{{ v }}|{{ s1 }}>{%% endmacro %%}{%% if b1 %%}{%% autoescape off %%}{{ %s(s1) }}{%% endautoescape %%}{%% endif %%}{{ %s(s2) }}{%% autoescape off %%}{{ %s(strg) }}{%% endautoescape %%}", m, m, m, m)
+			return
+		}
 		fmt.Fprintf(b, "{%% autoescape %s %%}", p.pick([]string{"on", "off"}))
 		p.body(b, depth+1)
 		b.WriteString("{% endautoescape %}")
